@@ -122,7 +122,7 @@ class Check(object):
             'evaluations': self.evaluations,
             'distinct_nontrivial': len(self.nontrivial),
             'rule': self.rule,
-            'exhaustive': self.exhaustive,
+            'exhaustive': bool(self.exhaustive and all(s.get('all_executed', True) for s in self.stage_stats.values())),
             'tlc_runs': self.tlc_runs,
             'stages': self.stage_stats,
             'action_coverage': self.coverage_actions,
